@@ -83,11 +83,18 @@ func (s *singleWidthIndex) Unmarshal(r io.Reader) error {
 		return err
 	}
 
-	buf := make([]byte, dataLen)
-	if _, err := io.ReadFull(r, buf); err != nil {
+	// dataLen comes from the input and is only known to fit in an int64: do not allocate
+	// for it up front. Copying through a buffer makes the allocation follow the bytes that
+	// are actually there, so a short input fails with ErrUnexpectedEOF instead of exhausting
+	// memory (or panicking in make).
+	var buf bytes.Buffer
+	if _, err := io.CopyN(&buf, r, int64(dataLen)); err != nil {
+		if err == io.EOF {
+			err = io.ErrUnexpectedEOF
+		}
 		return err
 	}
-	s.index = buf
+	s.index = buf.Bytes()
 	return nil
 }
 
